@@ -96,7 +96,7 @@ package crdt
 // custom-merge mode: changed keys get cb(key, mine, graft's); keys only in the
 // graft are taken over; keys only in newTree stay
 //@ func convertMergeFunc$1
-//@   requires cb != nil
+//@   requires cb != nil && *cb != nil
 //@   requires newTree != nil && onConflictMerged == nil
 //@   requires imp(!added, typeis(removedValue, crdt.Value)) && imp(!added && !removed, typeis(addedValue, crdt.Value))
 //@   modifies *newTree
